@@ -266,6 +266,15 @@ class Rewriter:
                     out.append(T('ident', ppr[t.text] + toks[j].text, t.start))
                     k = j + 1
                     continue
+            # R5: std::cmp::min(a, b) -> cmp_min(a, b)
+            if is_id(t, 'std') and text_of(toks[k:k + 12]).replace(' ', '').startswith('std::cmp::min('):
+                j = k
+                while not is_id(toks[j], 'min'):
+                    j += 1
+                out.append(T('ident', 'cmp_min', t.start))
+                self.rec('R5', 'std::cmp::min', 'cmp_min')
+                k = j + 1
+                continue
             # R16: strip in-crate / mantra-dex-std module paths (everything is one flat namespace)
             if is_id(t) and t.text in MODULE_NAMES and t.text not in ppr and nxt(k) < n and is_p(toks[nxt(k)], '::'):
                 p = prv_out()
@@ -400,6 +409,43 @@ class Rewriter:
                 self.rec('R5', '.to_owned()', '.clone()')
                 k += 1
                 continue
+            # R5: `.iter().map(F).collect[::<..>]()` -> `.iter_map(F)` / `.iter_try_map(F)`;
+            #     `.into_iter().filter(P).collect()` -> `.into_iter_filter(P)`
+            if is_id(t) and t.text in ('iter', 'into_iter') and prv_out() is not None and is_p(prv_out(), '.'):
+                a = nxt(k)
+                bq = nxt(a) if a < n else n
+                c = nxt(bq) if bq < n else n
+                d = nxt(c) if c < n else n
+                e0 = nxt(d) if d < n else n
+                if (a < n and is_p(toks[a], '(') and bq < n and is_p(toks[bq], ')') and c < n and is_p(toks[c], '.') and d < n
+                        and is_id(toks[d]) and toks[d].text in ('map', 'filter') and e0 < n and is_p(toks[e0], '(')):
+                    e1 = match_close(toks, e0)
+                    f0 = nxt(e1)
+                    f1 = nxt(f0) if f0 < n else n
+                    if f0 < n and is_p(toks[f0], '.') and f1 < n and is_id(toks[f1], 'collect'):
+                        g = nxt(f1)
+                        turbo = ''
+                        if g < n and is_p(toks[g], '::'):
+                            g2 = nxt(g)
+                            from rustlex import match_angle
+                            g3 = match_angle(toks, g2)
+                            turbo = text_of(toks[g2:g3 + 1])
+                            g = nxt(g3)
+                        if g < n and is_p(toks[g], '(') and nxt(g) < n and is_p(toks[nxt(g)], ')'):
+                            if t.text == 'iter' and toks[d].text == 'map':
+                                nm = 'iter_try_map' if 'Result' in turbo else 'iter_map'
+                            elif t.text == 'into_iter' and toks[d].text == 'filter':
+                                nm = 'into_iter_filter'
+                            else:
+                                nm = None
+                            if nm:
+                                self.rec('R5', '.%s().%s(..).collect%s()' % (t.text, toks[d].text, '::' + turbo if turbo else ''), '.%s(..)' % nm)
+                                out.append(T('ident', nm, t.start))
+                                out.append(T('punct', '(', toks[e0].start))
+                                out.extend(self.basic(toks[e0 + 1:e1], in_const))
+                                out.append(T('punct', ')', toks[e1].start))
+                                k = nxt(g) + 1
+                                continue
             # R5: `.iter().position(` -> `.iter_position(` etc. (verified helpers in shim/iter.rs)
             if is_id(t, 'iter') and prv_out() is not None and is_p(prv_out(), '.'):
                 a = nxt(k)
@@ -610,7 +656,18 @@ def parse_spec(path, into=None):
             k, _, v = st[5:].partition('=')
             cur.opts[k.strip()] = v.strip()
             continue
-        if st in ('loop_begin', 'loop_end') and mode and mode[0] in ('loop', 'looplines'):
+        if st == 'closure_body' and mode and mode[0] == 'closure':
+            flush()
+            cur.closures[mode[1]].setdefault('body', [])
+            mode, target = ('closurelines', mode[1]), None
+            continue
+        if mode and mode[0] == 'closurelines':
+            if st == 'end':
+                mode = ('closure', mode[1])
+            else:
+                cur.closures[mode[1]]['body'].append(line)
+            continue
+        if st in ('loop_begin', 'loop_end', 'loop_before', 'loop_after') and mode and mode[0] in ('loop', 'looplines'):
             flush()
             k_ = mode[1]
             cur.loops[k_].setdefault(st, [])
